@@ -8,3 +8,9 @@ import "github.com/gopherjs/gopherjs/js"
 func Where(id int) {
 	println(Cur, "WHERE", id, js.Global.Get("Error").New().Get("stack").String())
 }
+
+// WhereV is Where for expression positions: it prints the stack and returns 0.
+func WhereV(id int) int {
+	println(Cur, "WHERE", id, js.Global.Get("Error").New().Get("stack").String())
+	return 0
+}
